@@ -731,14 +731,20 @@ impl Harness {
         config.bgp_riswhois_enabled = true;
         config.bgp_riswhois_v4_uri = format!("http://127.0.0.1:{}{p4}", self.port);
         config.bgp_riswhois_v6_uri = format!("http://127.0.0.1:{}{p6}", self.port);
-        let analyser = BgpAnalyser::new(&config);
         let slow = self.world.slow.clone();
-        match catch(|| analyser.update(&slow)) {
-            Err(p) => Err(format!("panic: {p}")),
-            Ok(Err(e)) => Err(format!("error: {e}")),
-            Ok(Ok(false)) => Err("error: update() did not download".into()),
-            Ok(Ok(true)) => Ok(Loaded { analyser }),
+        let mut last = String::new();
+        for _attempt in 0..2 {
+            // a fresh analyser per case: update() only downloads once per
+            // refresh interval
+            let analyser = BgpAnalyser::new(&config);
+            match catch(|| analyser.update(&slow)) {
+                Err(p) => return Err(format!("panic: {p}")),
+                Ok(Err(e)) => last = format!("error: {e}"),
+                Ok(Ok(false)) => last = "error: update() did not download".into(),
+                Ok(Ok(true)) => return Ok(Loaded { analyser }),
+            }
         }
+        Err(last)
     }
 }
 
@@ -1275,6 +1281,7 @@ fn shrink(h: &mut Harness, case: &Case, sig: &str, rng: &mut Rng, args: &Args) -
     if cur.scope.is_some() {
         let mut c = cur.clone();
         c.scope = None;
+        c.tags.retain(|t| t != "scope");
         if still(h, &c, rng) { cur = c }
     }
     for fam in 0..2 {
